@@ -179,6 +179,12 @@ func (g *cpuRig) loadPrim(s ref.State, stale bool, r *vf.Rng) {
 		c.SetFlags(s.P)
 		return
 	}
+	g.assignPrim(s, stale, r)
+}
+
+// assignPrim sets the architectural registers field by field.
+func (g *cpuRig) assignPrim(s ref.State, stale bool, r *vf.Rng) {
+	c := &g.prim
 	c.PC, c.SP, c.RD, c.RDBR, c.RK = s.PC, s.S, s.D, s.DBR, s.K
 	c.N = s.P >> 7 & 1
 	c.V = s.P >> 6 & 1
@@ -207,6 +213,62 @@ func (g *cpuRig) loadPrim(s ref.State, stale bool, r *vf.Rng) {
 			c.RXl, c.RYl = r.U8(), r.U8()
 		}
 	}
+}
+
+// excursion: before a judged native-mode run, the same two CPU objects execute (unjudged) a short
+// program that enters emulation mode, moves values into the direct-page, stack and index registers
+// there, and returns to native mode; the judged run then starts from registers assigned field by field,
+// with nothing re-initialised. Whatever the interpreters keep beside their registers and set while E=1
+// is still in place.
+func (g *cpuRig) excursion(r *vf.Rng, s0 ref.State, stale bool) {
+	img := mem.New(r.U64())
+	st := s0
+	st.E = false
+	st.K = byte(0x10 + r.Intn(0x60))
+	st.PC = uint16(0x2000 + r.Intn(0x8000))
+	st.S = 0x01F0
+	prog := []byte{0x38, 0xFB} // SEC ; XCE
+	idioms := [][]byte{
+		{0xA9, 0x00, 0xEB, 0xA9, 0x00, 0x5B},              // LDA #0 ; XBA ; LDA #0 ; TCD   (D = $0000)
+		{0xA9, byte(r.Intn(256)), 0xEB, 0xA9, 0x00, 0x5B}, // D = $xx00
+		{0xA9, byte(r.Intn(256)), 0x5B},                   // TCD with whatever B holds
+		{0xF4, 0x00, 0x00, 0x2B},                          // PEA $0000 ; PLD
+		{0xF4, 0x00, byte(r.Intn(256)), 0x2B},             // PEA $xx00 ; PLD
+		{0xA2, byte(r.Intn(256)), 0x9A},                   // LDX # ; TXS
+		{0xA9, byte(r.Intn(256)), 0x1B},                   // TCS
+		{0xA0, byte(r.Intn(256)), 0xBB},                   // LDY # ; TYX
+		{0xC2, 0x30}, {0xE2, 0x30}, {0x08, 0x28}, {0x48, 0xAB}, {0x4B, 0xAB}, {0xEB}, {0x7B}, {0x3B}, {0xEA},
+	}
+	for n := 1 + r.Intn(5); n > 0; n-- {
+		prog = append(prog, idioms[r.Intn(len(idioms))]...)
+	}
+	prog = append(prog, 0x18, 0xFB, 0xEA, 0xEA) // CLC ; XCE
+	for i, b := range prog {
+		img.Ov[uint32(st.K)<<16|uint32(st.PC+uint16(i))] = b
+	}
+	g.loadPrim(st, false, r)
+	g.loadAltFromPrim()
+	mp, ma := img.Clone(), img.Clone()
+	end := st.PC + uint16(len(prog)) - 2
+	for i := 0; i < len(prog) && g.prim.PC != end; i++ {
+		if res := g.stepPrim(mp); res.pan != nil {
+			break
+		}
+	}
+	for i := 0; i < len(prog) && g.alt.PC != end; i++ {
+		if res := g.stepAlt(ma); res.pan != nil {
+			break
+		}
+	}
+	// back in native mode (if the excursion went as written): assign the judged run's registers
+	c := &g.prim
+	c.AllCycles, c.Cycles, c.Stopped, c.PRK, c.PPC, c.WDM = 0, 0, false, 0, 0, 0
+	c.OnWDM, c.OnPC = nil, nil
+	c.B, c.E, c.Interrupt = 0, 0, 0
+	c.StepInfo = cpu65c816.StepInfo{}
+	g.assignPrim(s0, stale, r)
+	g.alt.E, g.alt.B = 0, 0
+	g.loadAltFromPrim()
 }
 
 // observeFromHooks registers WDM callbacks that only look: they call the read-only methods of the CPU
